@@ -33,6 +33,13 @@ fn compare_runs(prop: &'static str, a: &RunOut, b: &RunOut, na: &str, nb: &str, 
     }
     match (&a.viol, &b.viol) {
         (None, None) => {
+            if let Some(f) = a.foreign.as_ref().or(b.foreign.as_ref()) {
+                // a predicate of another property failed (softly) on at least one side; the streams above
+                // were still compared in full
+                if a.trace.len() == b.trace.len() {
+                    return Some(f.clone());
+                }
+            }
             if a.trace.len() != b.trace.len() {
                 return Some(viol!(prop, "length-differs", "{na} made {} steps, {nb} {}", a.trace.len(), b.trace.len()));
             }
@@ -81,8 +88,10 @@ impl Prop for C11 {
         // counters; the bytes of a recycled, not yet initialised typed allocation legitimately differ
         // (sync leaves a zeroed size field in the old node header, unsync does not) - see DESIGN.md 9.
         let mode = Mode { trace: true, ..Mode::default() };
+        crate::enga::set_owner(Some("C11"));
         let a = run_history::<sync::Arena>(&case.cfg, &case.ops, mode.clone());
         let b = run_history::<unsync::Arena>(&case.cfg, &case.ops, mode);
+        crate::enga::set_owner(None);
         let viol = compare_runs("C11", &a, &b, "sync", "unsync", true, false);
         let mut classes = a.classes.clone();
         classes.extend(b.classes.iter().copied());
@@ -128,6 +137,12 @@ impl C17 {
         p
     }
     fn run_flavor<A: Flavor>(case: &CaseC17) -> (BTreeSet<&'static str>, Option<Viol>) {
+        crate::enga::set_owner(Some("C17"));
+        let r = Self::run_flavor_inner::<A>(case);
+        crate::enga::set_owner(None);
+        r
+    }
+    fn run_flavor_inner<A: Flavor>(case: &CaseC17) -> (BTreeSet<&'static str>, Option<Viol>) {
         let mode = Mode { trace: true, ..Mode::default() };
         let mut ops = case.before.clone();
         ops.push(Op::Clear);
@@ -162,7 +177,7 @@ impl C17 {
                 return (classes, Some(viol!("C17", "cleared-vs-fresh", "continuation step {k}: cleared arena {:?} vs fresh arena {:?}", x, y)));
             }
         }
-        (classes, None)
+        (classes, a.foreign.or(b.foreign))
     }
 }
 impl Prop for C17 {
@@ -334,29 +349,7 @@ fn c16_ctor<A: Flavor>(case: &CaseC16) -> R<BTreeSet<&'static str>> {
     }
 }
 
-impl Prop for C16 {
-    type Case = CaseC16;
-    const ID: &'static str = "C16";
-    fn strategy(tier: Tier) -> BoxedStrategy<CaseC16> {
-        let mut p = Profile::base();
-        p.reserved_max = 4096;
-        p.max_ops = if tier == Tier::Thorough { 60 } else { 24 };
-        p.prelude_pct = 40;
-        p.w_fill = 8;
-        p.w_drop = 35;
-        p.w_minseg = 2;
-        p.w_discard = 2;
-        p.owned_pct = 10;
-        let delta = prop_oneof![4 => -3i32..=3, 1 => -40i32..0, 3 => 4i32..3000];
-        (cfg_strategy(&p), delta, 0u8..crate::types::ntypes() as u8, prop::collection::vec(op_strategy(&p), 0..=p.max_ops), prelude_strategy(), any::<bool>())
-            .prop_map(|(cfg, delta, first_ty, ops, pre, use_pre)| {
-                let mut all = if use_pre { pre } else { vec![] };
-                all.extend(ops);
-                CaseC16 { cfg, delta, first_ty, ops: all }
-            })
-            .boxed()
-    }
-    fn run(case: &CaseC16) -> CaseReport {
+fn c16_run_inner(case: &CaseC16) -> CaseReport {
         let r = match case.cfg.flavor {
             Fl::Sync => c16_ctor::<sync::Arena>(case),
             Fl::Unsync => c16_ctor::<unsync::Arena>(case),
@@ -390,6 +383,35 @@ impl Prop for C16 {
         }
         let nontrivial = classes.contains("reserved-unaligned") || classes.contains("capacity-at-prefix");
         CaseReport { nontrivial, classes, viol }
+}
+
+impl Prop for C16 {
+    type Case = CaseC16;
+    const ID: &'static str = "C16";
+    fn strategy(tier: Tier) -> BoxedStrategy<CaseC16> {
+        let mut p = Profile::base();
+        p.reserved_max = 4096;
+        p.max_ops = if tier == Tier::Thorough { 60 } else { 24 };
+        p.prelude_pct = 40;
+        p.w_fill = 8;
+        p.w_drop = 35;
+        p.w_minseg = 2;
+        p.w_discard = 2;
+        p.owned_pct = 10;
+        let delta = prop_oneof![4 => -3i32..=3, 1 => -40i32..0, 3 => 4i32..3000];
+        (cfg_strategy(&p), delta, 0u8..crate::types::ntypes() as u8, prop::collection::vec(op_strategy(&p), 0..=p.max_ops), prelude_strategy(), any::<bool>())
+            .prop_map(|(cfg, delta, first_ty, ops, pre, use_pre)| {
+                let mut all = if use_pre { pre } else { vec![] };
+                all.extend(ops);
+                CaseC16 { cfg, delta, first_ty, ops: all }
+            })
+            .boxed()
+    }
+    fn run(case: &CaseC16) -> CaseReport {
+        crate::enga::set_owner(Some("C16"));
+        let r = c16_run_inner(case);
+        crate::enga::set_owner(None);
+        r
     }
     fn cases(tier: Tier) -> u64 {
         scale(tier, 16000, 400_000)
